@@ -721,7 +721,31 @@ def _plot_check(acc):
         seen.append((list(df.index), [float(x) for x in df['Equity']]))
         return real(df)
     ts.get_results = spy
-    out = _call(lambda: ts.plot_results(filename=os.path.join(tempfile.gettempdir(), 'c17_plot_%d.png' % os.getpid())))
+    # ... and the drawdown figures printed in the text panel are computed on each curve's OWN cumulative returns
+    import qstrader.statistics.tearsheet as _tsm
+    dd_args = []
+    real_dd = _tsm.perf.create_drawdowns
+
+    in_panel = [False]
+
+    def dd_spy(series, *a, **k):
+        if in_panel[0]:                      # (only the calls made while the text panel is drawn)
+            dd_args.append([float(x) for x in list(series)])
+        return real_dd(series, *a, **k)
+    real_panel = ts._plot_txt_curve
+
+    def panel(*a, **k):
+        in_panel[0] = True
+        try:
+            return real_panel(*a, **k)
+        finally:
+            in_panel[0] = False
+    ts._plot_txt_curve = panel
+    _tsm.perf.create_drawdowns = dd_spy
+    try:
+        out = _call(lambda: ts.plot_results(filename=os.path.join(tempfile.gettempdir(), 'c17_plot_%d.png' % os.getpid())))
+    finally:
+        _tsm.perf.create_drawdowns = real_dd
     try:
         plt.close('all')
         os.remove(os.path.join(tempfile.gettempdir(), 'c17_plot_%d.png' % os.getpid()))
@@ -736,6 +760,12 @@ def _plot_check(acc):
               [(str(i[0]), len(i)) for i, _ in seen], (str(want_b[0][0]), len(want_b[0])))
     acc.check('tearsheet-json-agree', want_s in seen, case, {'what': 'plot_results: strategy statistics computed on the supplied strategy curve'},
               [(str(i[0]), len(i)) for i, _ in seen], (str(want_s[0][0]), len(want_s[0])))
+    cum_b = [e / want_b[1][0] for e in want_b[1]]
+    cum_s = [e / want_s[1][0] for e in want_s[1]]
+    for name, cum in (('benchmark', cum_b), ('strategy', cum_s)):
+        hit = any(len(a) == len(cum) and all(_close(x, y) for x, y in zip(a, cum)) for a in dd_args)
+        acc.check('max-drawdown', hit, case, {'what': 'plot_results: the %s drawdown figures are computed on the %s curve' % (name, name)},
+                  [(len(a), a[:2]) for a in dd_args][:6], (len(cum), cum[:2]))
 
 
 def _run_chunk(cases):
